@@ -16,6 +16,7 @@ import (
 	"strings"
 	"time"
 
+	"github.com/kardiachain/go-kardia/configs"
 	"github.com/kardiachain/go-kardia/lib/common"
 	"github.com/kardiachain/go-kardia/lib/crypto"
 	"github.com/kardiachain/go-kardia/lib/rlp"
@@ -553,6 +554,40 @@ func caseMsg(o *out.Out, r *gen.Rand, c int, isVote bool) {
 	}
 	h := crypto.Keccak256(base)
 	regSig(o, sig, addr, h)
+	opSP(o, h, sig, false)
+	// the test signer of the same file (MockPV): a plain signature over the same bytes; with its
+	// break flags it signs for another chain id and must not verify here
+	if r.Chance(1, 3) {
+		for _, broken := range []bool{false, true} {
+			mock := types.NewMockPVWithParams(keys[k], broken, broken)
+			var msig []byte
+			var merr, verr error
+			pan := catch(func() {
+				if isVote {
+					p := m.vote(addr, nil).ToProto()
+					merr = mock.SignVote(m.chain, p)
+					msig = p.Signature
+					verr = m.vote(addr, msig).Verify(m.chain, addr)
+				} else {
+					p := m.proposal(nil).ToProto()
+					merr = mock.SignProposal(m.chain, p)
+					msig = p.Signature
+					if !types.VerifySignature(addr, h, msig) {
+						verr = types.ErrVoteInvalidSignature
+					}
+				}
+			})
+			o.Count(fmt.Sprintf("mockpv.broken.%v", broken))
+			switch {
+			case pan || merr != nil:
+				o.Fail(step, "sign-error", fmt.Sprintf("MockPV signing failed (panic=%v): %v", pan, merr))
+			case !broken && verr != nil:
+				o.Fail(step, "sign-then-verify", "MockPV's signature is rejected for the message it signed")
+			case broken && verr == nil && m.chain != "1" && m.chain != "1000":
+				o.Fail(step, "mutation-accepted", "MockPV with broken signing (other chain id) produced a signature that verifies for chain "+m.chain)
+			}
+		}
+	}
 	verify := func(mm vmsg, a, va common.Address, s []byte) string {
 		step++
 		if isVote {
@@ -763,16 +798,27 @@ func (t txf) fieldsTok() string {
 }
 
 type sgn struct {
-	chain *big.Int // nil: Homestead
+	chain    *big.Int // nil: Homestead
+	frontier bool     // FrontierSigner (Sender is textually HomesteadSigner's): model token "F"
+	viaNil   bool     // chain id 0 built as NewChainIDSigner(nil)
 }
 
 func (s sgn) real() types.Signer {
+	if s.frontier {
+		return types.FrontierSigner{}
+	}
 	if s.chain == nil {
 		return types.HomesteadSigner{}
+	}
+	if s.viaNil && s.chain.Sign() == 0 {
+		return types.NewChainIDSigner(nil)
 	}
 	return types.NewChainIDSigner(s.chain)
 }
 func (s sgn) tok() string {
+	if s.frontier {
+		return "F"
+	}
 	if s.chain == nil {
 		return "H"
 	}
@@ -820,7 +866,7 @@ func genSigner(r *gen.Rand) sgn {
 		return sgn{}
 	}
 	c, _ := new(big.Int).SetString(chainIDs[r.Pick(1, 4, 2, 3, 1, 1, 1, 1, 1, 1)], 10)
-	return sgn{chain: c}
+	return sgn{chain: c, viaNil: r.Bool()}
 }
 
 func genTx(r *gen.Rand) txf {
@@ -901,6 +947,29 @@ func opSD(o *out.Out, s sgn, t txf) (string, common.Address) {
 	}
 	o.Op(fmt.Sprintf("SD %s %s %s %s %s", s.tok(), t.fieldsTok(), t.v, t.r, t.s), "sd "+res)
 	return res, from
+}
+
+// types.Sender on a freshly decoded transaction, class only (no operation line)
+func senderClass(s sgn, t txf) (string, common.Address) {
+	var from common.Address
+	var err error
+	tx, berr := t.build()
+	if berr != nil {
+		panic(berr)
+	}
+	switch {
+	case catch(func() { from, err = types.Sender(s.real(), tx) }):
+		return "PANIC", from
+	case err == types.ErrInvalidChainId:
+		return "chainid", from
+	case err == types.ErrInvalidSig:
+		return "invalidsig", from
+	case err != nil:
+		return "other", from
+	case known[from]:
+		return "ok:" + anum(from), from
+	}
+	return "other", from
 }
 
 type txmut struct {
@@ -1064,6 +1133,15 @@ func caseTx(o *out.Out, r *gen.Rand, c int) {
 	}
 	protected := stx.Protected()
 	o.Count(fmt.Sprintf("tx.protected.%v", protected))
+	// FrontierSigner.Sender applies the same rules as HomesteadSigner.Sender (same hash, homestead = true)
+	{
+		step++
+		fres, _ := opSD(o, sgn{frontier: true}, t)
+		hres, _ := senderClass(sgn{}, t)
+		if fres != hres {
+			o.Fail(step, "frontier-differs", fmt.Sprintf("FrontierSigner.Sender gives %s but HomesteadSigner.Sender gives %s", fres, hres))
+		}
+	}
 
 	// the same signed tx under every other signer
 	others := []sgn{{}}
@@ -1137,6 +1215,12 @@ func caseTx(o *out.Out, r *gen.Rand, c int) {
 		tres, _ := opSD(o, s, tw)
 		if tres != "invalidsig" {
 			o.Fail(step, "high-s-accepted", "transaction with the malleated high-s signature is not rejected with ErrInvalidSig: "+tres)
+		}
+		if !protected { // the unprotected twin (V = 27/28) under the Frontier rules as well
+			step++
+			if fres, _ := opSD(o, sgn{frontier: true}, tw); fres != "invalidsig" {
+				o.Fail(step, "high-s-accepted", "FrontierSigner accepts the malleated high-s signature: "+fres)
+			}
 		}
 	}
 	// V from another chain id with the same parity
@@ -1388,6 +1472,10 @@ func caseShapes(o *out.Out, r *gen.Rand, c int) {
 		if opVS(o, addr, hash, mk65(rv, sv, v)) == "1" {
 			o.Fail(step, "garbage-signature-accepted", "VerifySignature accepted a structured garbage signature")
 		}
+		// SigToPub / Ecrecover must refuse r, s outside [1, N-1] with an error (no panic, no key)
+		if rv.Sign() == 0 || sv.Sign() == 0 || rv.Cmp(curveN) >= 0 || sv.Cmp(curveN) >= 0 {
+			opSP(o, hash, mk65(rv, sv, v), true)
+		}
 		// ValidateSignatureValues against an independent statement of the rule
 		for _, hs := range []bool{true, false} {
 			var got bool
@@ -1439,12 +1527,15 @@ func caseShapes(o *out.Out, r *gen.Rand, c int) {
 		if opVS(o, addr, hash, sg) == "1" {
 			o.Fail(step, "garbage-signature-accepted", fmt.Sprintf("VerifySignature accepted random bytes of length %d", l))
 		}
+		if l != 65 && (l < 8 || l > 60) {
+			opSP(o, hash, sg, true)
+		}
 	}
 	// Protected / ChainId of V values (deriveChainId including its uint64 wrap below 35)
 	for i := 0; i < 6; i++ {
 		step = 200 + i
 		var v *big.Int
-		switch r.Pick(3, 2, 1, 1) {
+		switch r.Pick(3, 2, 1, 2) {
 		case 0:
 			v = big.NewInt(int64(r.Intn(80)))
 		case 1:
@@ -1452,7 +1543,7 @@ func caseShapes(o *out.Out, r *gen.Rand, c int) {
 		case 2:
 			v = new(big.Int).Add(new(big.Int).Lsh(big.NewInt(1), 64), big.NewInt(int64(r.Intn(100))))
 		case 3:
-			v = new(big.Int).SetUint64([]uint64{255, 256, 1<<64 - 1, 1 << 63}[r.Intn(4)])
+			v = new(big.Int).SetUint64([]uint64{255, 256, 1<<64 - 1, 1 << 63, 26, 27, 28, 29, 34, 35, 36, 37}[r.Intn(12)])
 		}
 		tt := t.clone()
 		tt.v = v
@@ -1465,6 +1556,21 @@ func caseShapes(o *out.Out, r *gen.Rand, c int) {
 		obs := "dc PANIC"
 		if !catch(func() { prot = tx.Protected(); cid = tx.ChainId() }) {
 			obs = fmt.Sprintf("dc %s %s", b01(prot), cid)
+			// independent statement: 27/28 are the only unprotected values and carry chain id 0;
+			// V >= 35 carries floor((V-35)/2) (values below 35 are never produced by a signer)
+			is2728 := v.Cmp(big.NewInt(27)) == 0 || v.Cmp(big.NewInt(28)) == 0
+			if prot == is2728 {
+				o.Fail(step, "protected-rule", fmt.Sprintf("Protected() = %v for V=%s", prot, v))
+			}
+			if is2728 && cid.Sign() != 0 {
+				o.Fail(step, "derive-chainid", fmt.Sprintf("ChainId() = %s for V=%s, want 0", cid, v))
+			}
+			if v.Cmp(big.NewInt(35)) >= 0 {
+				want := new(big.Int).Rsh(new(big.Int).Sub(v, big.NewInt(35)), 1)
+				if cid.Cmp(want) != 0 {
+					o.Fail(step, "derive-chainid", fmt.Sprintf("ChainId() = %s for V=%s, want %s", cid, v, want))
+				}
+			}
 		} else {
 			o.Fail(step, "chainid-panic", "Protected/ChainId panicked on V="+v.String())
 		}
@@ -1473,10 +1579,241 @@ func caseShapes(o *out.Out, r *gen.Rand, c int) {
 	o.Mark(fmt.Sprintf("shapes|%d", c%97))
 }
 
+
+// crypto.SigToPub / crypto.Ecrecover: "rej" = error, "key" = a public key.  Only called where the
+// outcome is determined: malformed strings (wantRej) or signatures really produced by a key.
+func opSP(o *out.Out, hash, sig []byte, wantRej bool) {
+	var err, err2 error
+	var pub *ecdsa.PublicKey
+	var raw []byte
+	res := "key"
+	if catch(func() { pub, err = crypto.SigToPub(hash, sig); raw, err2 = crypto.Ecrecover(hash, sig) }) {
+		res = "PANIC"
+		o.Fail(step, "sigtopub-panic", fmt.Sprintf("crypto.SigToPub / Ecrecover panicked: hash=%s sig=%s", hx(hash), hx(sig)))
+	} else {
+		if err != nil {
+			res = "rej"
+		}
+		if (err == nil) != (err2 == nil) || (err == nil && (pub == nil || len(raw) != 65)) {
+			o.Fail(step, "sigtopub-range", fmt.Sprintf("SigToPub and Ecrecover disagree on sig=%s: %v / %v", hx(sig), err, err2))
+		}
+		if wantRej && err == nil {
+			o.Fail(step, "sigtopub-range", fmt.Sprintf("SigToPub returned a key for a malformed signature (length %d, r or s outside [1,N-1]): %s", len(sig), hx(sig)))
+		}
+		if !wantRej && err != nil {
+			o.Fail(step, "sign-then-verify", fmt.Sprintf("SigToPub refused a signature produced by crypto.Sign: %v", err))
+		}
+	}
+	o.Op("SP "+hx(sig), "sp "+res)
+}
+
+// ---------------------------------------------------------------- ValidateBasic of decoded votes / proposals
+
+func vbClass(err error) string {
+	if err == nil {
+		return "ok"
+	}
+	e := err.Error()
+	switch {
+	case strings.HasPrefix(e, "invalid Type"):
+		return "type"
+	case strings.HasPrefix(e, "wrong BlockID"), strings.HasPrefix(e, "blockID must be"), strings.HasPrefix(e, "expected a complete"):
+		return "blockid"
+	case strings.HasPrefix(e, "too many block parts"):
+		return "parts"
+	case strings.HasPrefix(e, "signature is missing"):
+		return "nosig"
+	}
+	return "other"
+}
+
+func isZ(b []byte) bool {
+	for _, x := range b {
+		if x != 0 {
+			return false
+		}
+	}
+	return true
+}
+
+func caseValidate(o *out.Out, r *gen.Rand, c int) {
+	o.Case(c, fmt.Sprintf("CASE %d validate", c))
+	o.Count("case.validate")
+	z := make([]byte, 32)
+	for i := 0; i < 10; i++ {
+		step = i
+		isVote := r.Bool()
+		m := genMsg(r, isVote)
+		// block id shapes: zero, complete, and the three incomplete ones; totals around MaxBlockPartsCount
+		switch r.Pick(2, 5, 1, 1, 1, 4) {
+		case 0:
+			m.b = bid{hash: z, phash: z}
+		case 1:
+			m.b = bid{hash: randHash(r), total: uint32(1 + r.Intn(5)), phash: randHash(r)}
+		case 2:
+			m.b = bid{hash: randHash(r), phash: z}
+		case 3:
+			m.b = bid{hash: z, total: pickU32(r), phash: z}
+		case 4:
+			m.b = bid{hash: z, phash: randHash(r)}
+		case 5:
+			m.b = bid{hash: randHash(r), total: []uint32{types.MaxBlockPartsCount - 1, types.MaxBlockPartsCount, types.MaxBlockPartsCount + 1, 1<<32 - 1, 0, 1}[r.Intn(6)], phash: randHash(r)}
+			if r.Chance(1, 4) {
+				m.b.phash = z
+			}
+		}
+		if isVote {
+			m.ty = []int32{1, 2, 1, 2, 1, 2, 1, 2, 0, 3, 32, -1, 33, 1 << 30}[r.Intn(14)]
+		}
+		sig := r.Bytes([]int{0, 0, 1, 64, 65, 65, 66}[r.Intn(7)])
+		if r.Chance(1, 8) {
+			sig = nil
+		}
+		hz, pz := isZ(m.b.hash), isZ(m.b.phash)
+		zero := hz && m.b.total == 0 && pz
+		complete := !hz && !(m.b.total == 0 && pz)
+		var err, perr error
+		if isVote {
+			v := m.vote(addrs[0], sig)
+			pan := catch(func() {
+				err = v.ValidateBasic()
+				_, perr = types.VoteFromProto(v.ToProto())
+			})
+			res := vbClass(err)
+			want := "ok"
+			switch {
+			case m.ty != 1 && m.ty != 2:
+				want = "type"
+			case !zero && !complete:
+				want = "blockid"
+			case len(sig) == 0:
+				want = "nosig"
+			}
+			if pan {
+				res = "PANIC"
+				o.Fail(step, "validate-panic", "Vote.ValidateBasic / VoteFromProto panicked on "+m.voteTok())
+			} else {
+				if res != want {
+					o.Fail(step, "validate-basic-rule", fmt.Sprintf("Vote.ValidateBasic = %s (%v), want %s: type=%d %s siglen=%d", res, err, want, m.ty, m.bidTok(), len(sig)))
+				}
+				if (perr == nil) != (err == nil) {
+					o.Fail(step, "fromproto-differs", fmt.Sprintf("VoteFromProto(ToProto()) error %v but ValidateBasic %v", perr, err))
+				}
+			}
+			o.Count("validate.vote." + res)
+			o.Op(fmt.Sprintf("VC %d %s %d", m.ty, m.bidTok(), len(sig)), "vc "+res)
+		} else {
+			p := m.proposal(sig)
+			pan := catch(func() {
+				err = p.ValidateBasic()
+				_, perr = types.ProposalFromProto(p.ToProto())
+			})
+			res := vbClass(err)
+			want := "ok"
+			switch {
+			case !complete:
+				want = "blockid"
+			case m.b.total > types.MaxBlockPartsCount:
+				want = "parts"
+			case len(sig) == 0:
+				want = "nosig"
+			}
+			if pan {
+				res = "PANIC"
+				o.Fail(step, "validate-panic", "Proposal.ValidateBasic / ProposalFromProto panicked on "+m.propTok())
+			} else {
+				if res != want {
+					o.Fail(step, "validate-basic-rule", fmt.Sprintf("Proposal.ValidateBasic = %s (%v), want %s: %s siglen=%d", res, err, want, m.bidTok(), len(sig)))
+				}
+				if (perr == nil) != (err == nil) {
+					o.Fail(step, "fromproto-differs", fmt.Sprintf("ProposalFromProto(ToProto()) error %v but ValidateBasic %v", perr, err))
+				}
+			}
+			o.Count("validate.proposal." + res)
+			o.Op(fmt.Sprintf("PC %s %d", m.bidTok(), len(sig)), "pc "+res)
+		}
+	}
+	// signer selection: MakeSigner / LatestSigner / LatestSignerForChainID around the fork block
+	optU := func(p *uint64) string {
+		if p == nil {
+			return "nil"
+		}
+		return fmt.Sprint(*p)
+	}
+	optB := func(b *big.Int) string {
+		if b == nil {
+			return "nil"
+		}
+		return b.String()
+	}
+	sgTok := func(sg types.Signer) string {
+		switch x := sg.(type) {
+		case types.HomesteadSigner:
+			return "H"
+		case types.ChainIDSigner:
+			return "C:" + x.ChainID().String()
+		}
+		return "other"
+	}
+	for i := 0; i < 6; i++ {
+		step = 50 + i
+		var chain *big.Int
+		if !r.Chance(1, 5) {
+			chain, _ = new(big.Int).SetString(chainIDs[r.Intn(len(chainIDs))], 10)
+		}
+		var fork, head *uint64
+		if !r.Chance(1, 5) {
+			f := pickU64(r)
+			fork = &f
+		}
+		if !r.Chance(1, 6) {
+			h := pickU64(r)
+			if fork != nil && r.Chance(2, 3) { // at / next to the fork block
+				h = *fork + uint64(r.Intn(3)) - 1
+			}
+			head = &h
+		}
+		cfg := &configs.ChainConfig{ChainID: chain, GalaxiasBlock: fork}
+		var ms, ls, lc types.Signer
+		if catch(func() { ms = types.MakeSigner(cfg, head); ls = types.LatestSigner(cfg); lc = types.LatestSignerForChainID(chain) }) {
+			o.Fail(step, "signer-select-panic", fmt.Sprintf("MakeSigner/LatestSigner panicked: chain=%s fork=%s head=%s", optB(chain), optU(fork), optU(head)))
+			continue
+		}
+		wantC := "C:0"
+		if chain != nil {
+			wantC = "C:" + chain.String()
+		}
+		want := "H"
+		if fork != nil && head != nil && *fork <= *head {
+			want = wantC
+		}
+		if got := sgTok(ms); got != want {
+			o.Fail(step, "signer-select", fmt.Sprintf("MakeSigner(chain=%s, fork=%s, head=%s) = %s, want %s (replay protection from the fork block on)", optB(chain), optU(fork), optU(head), got, want))
+		}
+		want = "H"
+		if chain != nil && fork != nil {
+			want = wantC
+		}
+		if got := sgTok(ls); got != want {
+			o.Fail(step, "signer-select", fmt.Sprintf("LatestSigner(chain=%s, fork=%s) = %s, want %s", optB(chain), optU(fork), got, want))
+		}
+		want = "H"
+		if chain != nil {
+			want = wantC
+		}
+		if got := sgTok(lc); got != want {
+			o.Fail(step, "signer-select", fmt.Sprintf("LatestSignerForChainID(%s) = %s, want %s", optB(chain), got, want))
+		}
+		o.Count("select." + sgTok(ms)[:1])
+		o.Op(fmt.Sprintf("MS %s %s %s", optB(chain), optU(fork), optU(head)), fmt.Sprintf("ms %s %s %s", sgTok(ms), sgTok(ls), sgTok(lc)))
+	}
+	o.Mark(fmt.Sprintf("validate|%d", c%61))
+}
+
 func main() {
 	out.WriteFacts(func() string {
-		return fmt.Sprintf("From Coq Require Import ZArith NArith.\nDefinition secp256k1_n : N := %s%%N.\nDefinition signature_length : N := %d%%N.\nDefinition prevote_type : Z := %d%%Z.\nDefinition precommit_type : Z := %d%%Z.\nDefinition proposal_type : Z := %d%%Z.\n",
-			crypto.S256().Params().N, crypto.SignatureLength, int32(kproto.PrevoteType), int32(kproto.PrecommitType), int32(kproto.ProposalType))
+		return fmt.Sprintf("From Coq Require Import ZArith NArith.\nDefinition secp256k1_n : N := %s%%N.\nDefinition signature_length : N := %d%%N.\nDefinition prevote_type : Z := %d%%Z.\nDefinition precommit_type : Z := %d%%Z.\nDefinition proposal_type : Z := %d%%Z.\nDefinition max_block_parts_count : N := %d%%N.\n",
+			crypto.S256().Params().N, crypto.SignatureLength, int32(kproto.PrevoteType), int32(kproto.PrecommitType), int32(kproto.ProposalType), uint64(types.MaxBlockPartsCount))
 	})
 	o := out.Open()
 	o.Rule = "a case is one signed message (vote, proposal or transaction) with its whole single-field mutation matrix, or one batch of structured signature shapes / proto-level encodings; non-trivial = every vote/proposal/tx case (each runs >= 15 mutations against a real signature); distinct by (kind, type, field bit lengths, zero-block-id, chain length / signer, applicable-mutation string)"
@@ -1497,7 +1834,7 @@ func main() {
 		}
 		r := root.Fork(uint64(c))
 		step = 0
-		switch r.Pick(12, 10, 14, 2, 2, 1) {
+		switch r.Pick(12, 10, 14, 2, 2, 1, 2) {
 		case 0:
 			caseMsg(o, r, c, true)
 		case 1:
@@ -1510,6 +1847,8 @@ func main() {
 			caseProtoLevel(o, r, c)
 		case 5:
 			caseDualEvent(o, r, c)
+		case 6:
+			caseValidate(o, r, c)
 		}
 	}
 	o.Close()
